@@ -10,8 +10,38 @@ From Batchie Require Import Lib.Sexp Model.Encode Model.Screen Model.Retro Model
   Proofs.C11Lib Proofs.C11Select Proofs.C11Holdout Proofs.C13Filter Proofs.C13Optimal Proofs.C13Size
   Proofs.C13NPlate Proofs.C13SampleSeg Proofs.C13SampleSegEven Proofs.C13Shapes Proofs.C13MergeLib Proofs.C13TopBottom
   Proofs.C13MergeMin Proofs.C13MergeShapes Proofs.C11Init Proofs.C13Sparse Proofs.C13Pairwise
-  Proofs.C13SparseTerm Proofs.C13PairwiseSingles.
+  Proofs.C13SparseTerm Proofs.C13PairwiseSingles Generated.SrcRetro Proofs.C11Source.
 Import ListNotations.
+
+(* ---- the models are what the source says NOW (see Props/C11.v for the full list and what is trusted) ----
+   `src_*` (Generated/SrcRetro.v) are whole functions of /repo's current working tree, re-translated on every run by
+   harness/py2gal.py; the shape theorems below speak about [generate_plates] / [smooth_plates] (the wrappers around
+   every shipped generator / smoother) and [merge_min]: each equals its translation for all inputs. *)
+Theorem C13_model_is_source_generate_plates : forall rows ds,
+  (forall f : inner, src_generate_plates f rows ds = wrap f rows ds) /\
+  (forall g, src_generate_plates (generate_inner g) rows ds = generate_plates g rows ds).
+Proof. exact src_generate_plates_is_model. Qed.
+Print Assumptions C13_model_is_source_generate_plates.
+
+Theorem C13_model_is_source_smooth_plates : forall rows ds,
+  (forall f : inner, src_smooth_plates f rows ds = wrap f rows ds) /\
+  (forall sm, src_smooth_plates (smooth_inner sm) rows ds = smooth_plates sm rows ds).
+Proof. exact src_smooth_plates_is_model. Qed.
+Print Assumptions C13_model_is_source_smooth_plates.
+
+(* MergeMinPlateSmoother._smooth_plates with its `while True:` on explicit fuel: equal to [merge_min] (the subject of
+   C13_mergemin_stop and C13_merge_same_sample) whenever the fuel exceeds the number of experiments *)
+Theorem C13_model_is_source_merge_min_smooth_plates : forall min_size rows ds fuel,
+  length rows < fuel ->
+  src_merge_min_smooth_plates min_size rows ds fuel = merge_min min_size rows ds.
+Proof. exact src_merge_min_is_model. Qed.
+Print Assumptions C13_model_is_source_merge_min_smooth_plates.
+
+(* MergeTopBottomPlateSmoother._smooth_plates: equal to [merge_tb] (the subject of C13_topbottom_halves / _counts) *)
+Theorem C13_model_is_source_merge_tb_smooth_plates : forall n_iter rows,
+  src_merge_tb_smooth_plates n_iter rows = merge_tb n_iter rows.
+Proof. exact src_merge_tb_is_model. Qed.
+Print Assumptions C13_model_is_source_merge_tb_smooth_plates.
 
 (* ---- sample-segregating generator ---- *)
 Theorem C13_sample_segregating_shape : forall mx rows ds out ds',
